@@ -728,7 +728,9 @@ fn fails_when_released(trigger: &Vec<KeyCode>, key: &KeyCode) -> (r: bool)
   return false;
 }
 
-spec fn rak_inv(st: State, o: State, h0: Set<KeyCode>, evs: Seq<Event>, done: Seq<KeyCode>) -> bool {
+spec fn rak_inv(st: State, o: State, h0: Set<KeyCode>, evs: Seq<Event>, done: Seq<KeyCode>) -> bool { rak_core(st, o, h0, evs, done) && rak_gone(st, done) }
+spec fn rak_gone(st: State, done: Seq<KeyCode>) -> bool { forall|d: KeyCode| #[trigger] done.contains(d) ==> !st.input_pressed_keys@.contains(d) && !st.pass_through_keys@.contains(d) }
+spec fn rak_core(st: State, o: State, h0: Set<KeyCode>, evs: Seq<Event>, done: Seq<KeyCode>) -> bool {
   &&& wf(st) && apply(h0, evs) == Some(held(st)) && all_released(evs)
   &&& st.mapped_absorbed_keys@.len() == 0 && st.absorbing_trigger is None
   &&& sub(st.mapped_output_keys@, o.mapped_output_keys@) && sub(st.input_pressed_keys@, o.input_pressed_keys@)
@@ -769,6 +771,8 @@ fn release_absorbed_keys(state: &mut State) -> (events: Vec<Event>)
     forall|x: KeyCode| #[trigger] old(state).input_pressed_keys@.contains(x) && !old(state).mapped_absorbed_keys@.contains(x) ==> final(state).input_pressed_keys@.contains(x),
     //@ C01 C02 | inclusion invariant J (every held output key is justified by what is pressed)
     am_sub(final(state).active_mappings@, final(state).active_mappings@.len() as int, old(state).active_mappings@),
+    //@ C08 C05 | every key that was absorbed is neither considered pressed nor passed through afterwards
+    forall|d: KeyCode| #[trigger] old(state).mapped_absorbed_keys@.contains(d) ==> !final(state).input_pressed_keys@.contains(d) && !final(state).pass_through_keys@.contains(d),
   { //@ | body
   let mut events: Vec<Event> = Vec::new();
   let ghost h0 = held(*old(state));
@@ -885,7 +889,7 @@ fn release_absorbed_keys(state: &mut State) -> (events: Vec<Event>)
           //@ C01 C02 C09 | effect of the call on the list of keys considered pressed
           __i <= state.input_pressed_keys@.len(),
           //@ C01 C02 | inclusion invariant J (every held output key is justified by what is pressed)
-          rak_inv(*state, *old(state), h0, events@, done1),
+          rak_core(*state, *old(state), h0, events@, done1), rak_gone(*state, done0), done1 =~= done0.push(k),
           //@  | frame / auxiliary
           done1.contains(k),
           !state.pass_through_keys@.contains(k),
@@ -1141,6 +1145,25 @@ proof fn lemma_c03_fire_norepeat(m: Mapping, e0: Seq<Event>, c: Seq<Event>, h0: 
   }
 }
 
+
+// ---- absorbed keys across add_new_mapping (C08) ----
+spec fn gone_keep(st: State, g: Seq<KeyCode>) -> bool { forall|d: KeyCode| #[trigger] g.contains(d) ==> !st.input_pressed_keys@.contains(d) && !st.pass_through_keys@.contains(d) }
+// the state after the two release phases of add_new_mapping
+spec fn abs_phase(o: State, st: State, nk: KeyCode, to: Seq<KeyCode>) -> bool {
+  if has_action(to) && o.absorbing_trigger != Some(nk) {
+    st.mapped_absorbed_keys@.len() == 0 && st.absorbing_trigger is None && gone_keep(st, o.mapped_absorbed_keys@)
+  } else { st.mapped_absorbed_keys@ == o.mapped_absorbed_keys@ && st.absorbing_trigger == o.absorbing_trigger }
+}
+spec fn c08_anm(o: State, st: State, nk: KeyCode, m: Mapping) -> bool {
+  &&& (forall|a: KeyCode| #[trigger] m.absorbing@.contains(a) ==> st.mapped_absorbed_keys@.contains(a))
+  &&& (m.absorbing@.len() > 0 ==> st.absorbing_trigger == Some(nk))
+  &&& (if has_action(m.to@) && o.absorbing_trigger != Some(nk) {
+         gone_keep(st, o.mapped_absorbed_keys@) && (forall|x: KeyCode| #[trigger] st.mapped_absorbed_keys@.contains(x) ==> m.absorbing@.contains(x)) && (m.absorbing@.len() == 0 ==> st.absorbing_trigger is None)
+       } else {
+         (forall|x: KeyCode| #[trigger] o.mapped_absorbed_keys@.contains(x) ==> st.mapped_absorbed_keys@.contains(x)) && (m.absorbing@.len() == 0 ==> st.absorbing_trigger == o.absorbing_trigger)
+       })
+}
+
 //@ C01 C02 C03 C05 C07 C08 C09 C14 C19 | default: fn add_new_mapping
 fn add_new_mapping(state: &mut State, new_key: &KeyCode, m: &Mapping) -> (res: StepResult)
   requires
@@ -1178,6 +1201,8 @@ fn add_new_mapping(state: &mut State, new_key: &KeyCode, m: &Mapping) -> (res: S
     c03_fire(*m, res.events@, held(*final(state))),
     //@ C07 | after a mapping with Disabled or Special repeat fired, only modifiers are held
     c07_fire(*m, held(*final(state))),
+    //@ C08 | absorbed keys: every key of the fired mapping's absorbing list is absorbed afterwards with the pressed key as trigger; if the output contains a non-modifier key and the pressed key is not the current absorbing trigger, the keys absorbed before are lifted (no longer considered pressed, not passed through) and forgotten, otherwise they stay absorbed
+    c08_anm(*old(state), *final(state), *new_key, *m),
     //@ C09 | repeat request
     repeat_matches(m.repeat, res.repeat),
     //@ C01 C02 C09 | effect of the call on the list of keys considered pressed
@@ -1216,7 +1241,10 @@ fn add_new_mapping(state: &mut State, new_key: &KeyCode, m: &Mapping) -> (res: S
     }
   }
   
-  let ghost mo_s1 = state.mapped_output_keys@; let ghost pt_s1 = state.pass_through_keys@; let ghost am_s1 = state.active_mappings@; let ghost ip_s1 = state.input_pressed_keys@; let ghost ab_s1 = state.mapped_absorbed_keys@;
+  let ghost mo_s1 = state.mapped_output_keys@; let ghost pt_s1 = state.pass_through_keys@; let ghost am_s1 = state.active_mappings@; let ghost ip_s1 = state.input_pressed_keys@; let ghost ab_s1 = state.mapped_absorbed_keys@; let ghost at_s1 = state.absorbing_trigger;
+  let ghost cleared = has_action(m.to@) && old(state).absorbing_trigger != Some(nk0);
+  let ghost gone: Seq<KeyCode> = if cleared { old(state).mapped_absorbed_keys@ } else { Seq::empty() };
+  proof { assert(abs_phase(*old(state), *state, nk0, m.to@)); assert(gone_keep(*state, gone)); }
   proof { assert(held(*state) =~= state.pass_through_keys@.to_set().union(state.mapped_output_keys@.to_set())); }
   let pass_through_keys = &mut state.pass_through_keys;
   let mapped_output_keys = &mut state.mapped_output_keys;
@@ -1259,7 +1287,8 @@ fn add_new_mapping(state: &mut State, new_key: &KeyCode, m: &Mapping) -> (res: S
   } }
   
   proof { assert(held(*state) =~= state.pass_through_keys@.to_set().union(state.mapped_output_keys@.to_set()));
-    assert(state.active_mappings@ == am_s1); assert(state.mapped_absorbed_keys@ == ab_s1);
+    assert(state.active_mappings@ == am_s1); assert(state.mapped_absorbed_keys@ == ab_s1); assert(state.absorbing_trigger == at_s1);
+    assert(gone_keep(*state, gone)) by { assert forall|d: KeyCode| #[trigger] gone.contains(d) implies !state.input_pressed_keys@.contains(d) && !state.pass_through_keys@.contains(d) by { if state.pass_through_keys@.contains(d) { assert(pt_s1.contains(d)); } } }
     assert forall|x: KeyCode| #[trigger] state.pass_through_keys@.contains(x) implies !m.from@.contains(x) && !m.to@.contains(x) by { let j = choose|j: int| 0 <= j < state.pass_through_keys@.len() && state.pass_through_keys@[j] == x; assert(!m.from@.contains(state.pass_through_keys@[j])); }
     assert(state.input_pressed_keys@ == ip_s1);
     assert(jx(*state, m.to@));
@@ -1279,6 +1308,8 @@ fn add_new_mapping(state: &mut State, new_key: &KeyCode, m: &Mapping) -> (res: S
       (j2(*old(state)) ==> j2(*state)) && (j3(*old(state)) ==> j3(*state)) && (j4(*old(state)) ==> j4(*state)) && (j6(*old(state)) ==> j6(*state)) && sub(state.input_pressed_keys@, old(state).input_pressed_keys@) && (forall|x: KeyCode| #[trigger] old(state).input_pressed_keys@.contains(x) && (!old(state).mapped_absorbed_keys@.contains(x) || old(state).absorbing_trigger == Some(nk0)) ==> state.input_pressed_keys@.contains(x)) && anm_extra(*old(state), *state, m.absorbing@),
       //@ C03 C07 | the output keys handled so far are held, the non-modifier ones were pressed by an event of this step
       out_done(m.to@, it.index@ as int, events@, held(*state)),
+      //@ C08 | the absorbed list and its trigger are untouched while the outputs are pressed; lifted keys stay lifted
+      state.mapped_absorbed_keys@ == ab_s1, state.absorbing_trigger == at_s1, state.input_pressed_keys@ == ip_s1, gone_keep(*state, gone),
       //@  | frame / auxiliary
       it.seq().len() == m.to@.len(),
       forall|j: int| 0 <= j < m.to@.len() ==> *it.seq()[j] == m.to@[j],
@@ -1306,7 +1337,7 @@ fn add_new_mapping(state: &mut State, new_key: &KeyCode, m: &Mapping) -> (res: S
               //@  | frame / auxiliary
               __i <= state.pass_through_keys@.len(),
               state.mapped_output_keys@ == mo0,
-              state.active_mappings@ == am0, state.mapped_absorbed_keys@ == ab0,
+              state.active_mappings@ == am0, state.mapped_absorbed_keys@ == ab0, state.absorbing_trigger == at_s1,
               //@ C19 | bookkeeping equals the fold of the emitted events; no redundant press or release
               state.pass_through_keys@.no_duplicates(),
               //@ C01 C02 C09 | effect of the call on the list of keys considered pressed
@@ -1353,6 +1384,7 @@ fn add_new_mapping(state: &mut State, new_key: &KeyCode, m: &Mapping) -> (res: S
       lemma_prefix_contains(e0, events@);
       if !is_mod(*new_key) { assert(events@.last() == Event::Pressed(*new_key)); assert(events@.contains(events@[events@.len() - 1])); }
       lemma_out_done_step(m.to@, it.index@ as int, e0, events@, hpre, held(*state));
+      assert(gone_keep(*state, gone)) by { assert forall|d: KeyCode| #[trigger] gone.contains(d) implies !state.input_pressed_keys@.contains(d) && !state.pass_through_keys@.contains(d) by { if state.pass_through_keys@.contains(d) { assert(pt0.contains(d)); } } }
     }
   }
   
@@ -1371,6 +1403,10 @@ fn add_new_mapping(state: &mut State, new_key: &KeyCode, m: &Mapping) -> (res: S
       it.seq().len() == m.absorbing@.len(), forall|j: int| 0 <= j < m.absorbing@.len() ==> *it.seq()[j] == m.absorbing@[j],
       //@ C03 C07 | all output keys are held, the non-modifier ones were pressed by an event of this step
       out_done(m.to@, m.to@.len() as int, events@, held(*state)),
+      //@ C08 | the keys of the absorbing list handled so far are absorbed; nothing else is added; the trigger is untouched so far
+      state.absorbing_trigger == at_s1, gone_keep(*state, gone), sub(ab_s1, state.mapped_absorbed_keys@),
+      forall|j: int| 0 <= j < it.index@ ==> state.mapped_absorbed_keys@.contains(#[trigger] m.absorbing@[j]),
+      forall|x: KeyCode| #[trigger] state.mapped_absorbed_keys@.contains(x) ==> ab_s1.contains(x) || m.absorbing@.contains(x),
     { //@ | body
     proof { assert(*absorbed_key == m.absorbing@[it.index@ as int]); assert(m.absorbing@.contains(*absorbed_key)); }
     let ghost ab_b = state.mapped_absorbed_keys@;
@@ -1379,6 +1415,7 @@ fn add_new_mapping(state: &mut State, new_key: &KeyCode, m: &Mapping) -> (res: S
       proof { lemma_push_contains(ab_b, *absorbed_key); }
     }
   }
+  let ghost ab_f = state.mapped_absorbed_keys@;
   if m.absorbing.len() > 0 {
     state.absorbing_trigger = Some(*new_key);
   }
@@ -1433,6 +1470,10 @@ fn add_new_mapping(state: &mut State, new_key: &KeyCode, m: &Mapping) -> (res: S
     }
   };
         
+  proof {
+    assert forall|a: KeyCode| #[trigger] m.absorbing@.contains(a) implies ab_f.contains(a) by { let jj = choose|jj: int| 0 <= jj < m.absorbing@.len() && m.absorbing@[jj] == a; assert(ab_f.contains(m.absorbing@[jj])); }
+    assert(c08_anm(*old(state), *state, nk0, *m));
+  }
   res
 }
 
